@@ -176,6 +176,26 @@ reg('C14', 'model_checking',
     'Signatures are compared by (type, algorithms, hashed area, integers), not by framing. Reference-made keys are first checked by the reference itself.',
     'exhaustive shape enumeration + explicit-state BFS on the real importer / exporter vs. independent parser', 'DESIGN.md 2/C14')
 
+reg('C16', 'model_checking',
+    'Reference-written RSA keys for the full product primary flag set (8) x 0..2 subkeys with flag sets {absent, C, S, E, Es, A, S+E, all, none} (728 '
+    'configurations), every (old flags, new flags) pair of a newer binding / self-certification on primary, first and second subkey, and every ordered pair of '
+    'flag sets on two identities selected with user=; on each: sign, certify, encrypt on the public and the private form (representative slice: all four forms '
+    'public / private / locked / unlocked x enforcement on / off), and one reference-encrypted message per component for decrypt. Oracle: refuses iff no '
+    'component is granted the capability by its most recent self-signature; otherwise the component named in the signature / session-key packet is granted it '
+    'and really did the work (independent verifier under exactly that key, independent decryptor with exactly that secret).',
+    'Components without a key-flags subpacket are don\'t-cares (RFC 4880: unrestricted; PGPy: grants nothing); the primary may always certify. All components are RSA '
+    '(can do every operation) so that flags, not algorithms, decide.',
+    'exhaustive configuration enumeration on the real API with a flag model and independent verifier / decryptor', 'DESIGN.md 2/C16')
+
+reg('C19', 'model_checking',
+    'Breadth-first explicit-state search over load / unload histories on the real PGPKeyring with a universe of 6 key objects (two keys sharing name, comment and '
+    'e-mail, one sharing only the e-mail, the public and private half of one key, a key with two subkeys): the clusters of keys that share identifiers are each '
+    'explored to closure of the canonical state (model multiset + alias layout), the whole universe and blob loads (binary, armor, file, list) to a depth bound; in '
+    'every state: fingerprints() under all 9 filter combinations, len, every fingerprint (with and without spaces), key id, short id, name, comment, e-mail of a '
+    'loaded key is in the keyring and selects a loaded key carrying it, identifiers of unloaded-only keys select nothing, selection by signature and by message.',
+    'Selection among several loaded keys carrying the same identifier is checked as a refinement. The internal alias layout is used only to distinguish states.',
+    'explicit-state BFS to closure on the real keyring with a multiset reference model', 'DESIGN.md 2/C19')
+
 ALL = ['C%02d' % i for i in range(1, 21)]
 
 NOT_YET = 'check not built yet in this revision of /verif (work in progress; see DESIGN.md section 8)'
